@@ -97,6 +97,8 @@ fn call(oracle: &str, v: &Value) -> Value {
         #[cfg(feature = "lsp")]
         "incan::compound_assign" => c07::compound_assign(v),
         #[cfg(feature = "lsp")]
+        "incan::static_type_nested" => c07::static_type_nested(v),
+        #[cfg(feature = "lsp")]
         "incan::emit_slice" => c05::emit_slice(v),
         #[cfg(feature = "lsp")]
         "incan::emit_division" => c05::emit_division(v),
@@ -328,13 +330,18 @@ mod c05 {
         let ops = ["+", "-", "*", "**"];
         let op = ops[v["op"].as_u64().unwrap() as usize % 4];
         let lforms = [("a", false), ("x", true), ("it.qty", false), ("it.price", true)];
-        let rforms = [("a", false), ("x", true), ("it.qty", false), ("it.price", true), ("len(xs)", false), ("xs[0]", false), ("2", false), ("-2", false), ("b", false)];
+        let rforms = [("a", false), ("x", true), ("it.qty", false), ("it.price", true), ("len(xs)", false), ("xs[0]", false), ("2", false), ("-2", false), ("b", false), ("64", false), ("19", false)];
         let (l, lf) = lforms[v["l"].as_u64().unwrap() as usize % 4];
-        let (r, rf) = rforms[v["r"].as_u64().unwrap() as usize % 9];
+        let (r, rf) = rforms[v["r"].as_u64().unwrap() as usize % 11];
+        // literal ** literal whose exact value does not fit i64 (`2 ** 64`, `10 ** 19`): still an int per the table
+        let big_pow = r == "64" || r == "19";
+        let l = if big_pow { if r == "64" { "2" } else { "10" } } else { l };
+        let lf = if big_pow { false } else { lf };
         let compound = v["compound"].as_bool().unwrap();
         if op == "**" && compound { return verdict(true, json!(null), json!(null), v, "no `**=`"); }
-        if op != "**" && (r == "2" || r == "-2" || r == "b") { return verdict(true, json!(null), json!(null), v, "literal / second-variable forms are used for ** only"); }
-        let float = if op == "**" { !(!lf && r == "2") } else { lf || rf };
+        if op != "**" && (r == "2" || r == "-2" || r == "b" || big_pow) { return verdict(true, json!(null), json!(null), v, "literal / second-variable forms are used for ** only"); }
+        if big_pow && v["l"].as_u64().unwrap() % 4 != 0 { return verdict(true, json!(null), json!(null), v, "literal base: one left form only"); }
+        let float = if op == "**" { !(!lf && (r == "2" || big_pow)) } else { lf || rf };
         let (lname, lfloat) = if compound { (if lf { "total" } else { "n" }, lf) } else { (l, lf) };
         if compound && float != lfloat { return verdict(true, json!(null), json!(null), v, "compound form would change the target's kind: rejected by the checker"); }
         if compound && l.contains('.') { return verdict(true, json!(null), json!(null), v, "compound target is a local"); }
@@ -361,7 +368,7 @@ mod c05 {
                 let rest = &flat[start..];
                 let expr = &rest[..rest.find(';').unwrap_or(rest.len())];
                 if op == "**" {
-                    let ok = if !float { expr.contains(".pow(") && !expr.contains("powf") } else { expr.contains(".powf(") && (lf || expr.starts_with('(')) };
+                    let ok = if !float { expr.contains(".pow(") && !expr.contains("powf") && !expr.contains("f64") } else { expr.contains(".powf(") && (lf || expr.starts_with('(')) };
                     return verdict(ok, json!({"expr": expr}), json!({"kind": if float { "float: powf with the int operands promoted" } else { "int: pow" }}), &echo, "`**`: the computed value has the table's kind");
                 }
                 // split at the top-level ` op `
@@ -557,10 +564,13 @@ mod c07 {
         if (op == "/" || op == "//" || op == "%") && matches!(form, "zero") { return super::verdict(true, json!(null), json!(null), v, "literal zero divisor: skipped"); }
         let float = match op { "/" => true, "**" => !(!lf && !rf && matches!(lit, Some(n) if n >= 0)), _ => lf || rf };
         let (lk, rk, ak) = (if lf { "float" } else { "int" }, if rf { "float" } else { "int" }, if ann_float { "float" } else { "int" });
+        // `wrap`: the whole right-hand side is parenthesised — must not change its type
+        let wrapped = v["wrap"].as_bool().unwrap_or(false);
+        let (po, pc) = if wrapped { ("(", ")") } else { ("", "") };
         let src = match v["position"].as_str().unwrap_or("let") {
-            "return" => format!("const N: int = 2\n\ndef f(a: {}, b: {}) -> {}:\n    return a {} {}\n\ndef main() -> None:\n    pass\n", lk, rk, ak, op, rhs),
-            "arg" => format!("const N: int = 2\n\ndef g(v: {}) -> None:\n    pass\n\ndef f(a: {}, b: {}) -> None:\n    g(a {} {})\n\ndef main() -> None:\n    pass\n", ak, lk, rk, op, rhs),
-            _ => format!("const N: int = 2\n\ndef f(a: {}, b: {}) -> None:\n    y: {} = a {} {}\n\ndef main() -> None:\n    pass\n", lk, rk, ak, op, rhs),
+            "return" => format!("const N: int = 2\n\ndef f(a: {}, b: {}) -> {}:\n    return {}a {} {}{}\n\ndef main() -> None:\n    pass\n", lk, rk, ak, po, op, rhs, pc),
+            "arg" => format!("const N: int = 2\n\ndef g(v: {}) -> None:\n    pass\n\ndef f(a: {}, b: {}) -> None:\n    g({}a {} {}{})\n\ndef main() -> None:\n    pass\n", ak, lk, rk, po, op, rhs, pc),
+            _ => format!("const N: int = 2\n\ndef f(a: {}, b: {}) -> None:\n    y: {} = {}a {} {}{}\n\ndef main() -> None:\n    pass\n", lk, rk, ak, po, op, rhs, pc),
         };
         let got = guarded(|| {
             let tokens = incan::frontend::lexer::lex(&src).map_err(|e| format!("lex: {:?}", e.first().map(|x| x.message.clone())))?;
@@ -579,6 +589,47 @@ mod c07 {
         r
     }
 
+    /// Nested expressions ("nested to any depth"): a random arithmetic tree over int/float leaves, typed by applying the
+    /// documented table bottom-up; the annotated binding must be accepted iff the annotation is that type
+    /// (`int` for a float expression must be rejected; a comparison on top is `bool`).
+    /// tree encoding: {"leaf": "a"|"x"|"2"|"-2"|"n.qty"...} | {"op": "+", "l": tree, "r": tree, "paren": bool}
+    fn render(t: &Value) -> String {
+        if let Some(l) = t.get("leaf") { return l.as_str().unwrap().to_string(); }
+        let s = format!("{} {} {}", render(&t["l"]), t["op"].as_str().unwrap(), render(&t["r"]));
+        if t["paren"].as_bool().unwrap_or(true) { format!("({})", s) } else { s }
+    }
+    /// (is_float, is a non-negative int literal possibly parenthesised)
+    fn kind(t: &Value) -> (bool, bool) {
+        if let Some(l) = t.get("leaf") {
+            let l = l.as_str().unwrap();
+            return (l == "x" || l == "it.price", l == "2" || l == "0");
+        }
+        let (lf, _) = kind(&t["l"]);
+        let (rf, rlit) = kind(&t["r"]);
+        let f = match t["op"].as_str().unwrap() { "/" => true, "**" => !(!lf && !rf && rlit), _ => lf || rf };
+        (f, false)
+    }
+    pub fn static_type_nested(v: &Value) -> Value {
+        let tree = &v["tree"];
+        let cmp = v["cmp"].as_str();                 // optional comparison on top: tree <cmp> leaf
+        let ann = v["ann"].as_str().unwrap();         // int | float | bool
+        let (f, _) = kind(tree);
+        let mut text = render(tree);
+        let ty = if let Some(c) = cmp { text = format!("{} {} {}", text, c, if v["cmp_float"].as_bool().unwrap_or(false) { "x" } else { "a" }); "bool" } else if f { "float" } else { "int" };
+        let src = format!("model Item:\n    qty: int\n    price: float\n\ndef f(a: int, b: int, x: float, it: Item) -> None:\n    y: {} = {}\n\ndef main() -> None:\n    pass\n", ann, text);
+        let got = guarded(|| {
+            let tokens = incan::frontend::lexer::lex(&src).map_err(|e| format!("lex: {:?}", e.first().map(|x| x.message.clone())))?;
+            let prog = incan::frontend::parser::parse(&tokens).map_err(|e| format!("parse: {:?}", e.first().map(|x| x.message.clone())))?;
+            Ok::<bool, String>(incan::frontend::typechecker::check(&prog).is_ok())
+        });
+        let must_accept = ann == ty;
+        let must_reject = (ann == "int" && ty == "float") || (ann == "bool") != (ty == "bool");
+        let ok = match &got { Ok(Ok(acc)) => (!must_accept || *acc) && (!must_reject || !*acc), _ => false };
+        super::verdict(ok, match &got { Ok(Ok(a)) => json!({"accepted": a}), Ok(Err(m)) => json!({"front_end_error": m}), Err(m) => json!({"panicked": m}) },
+                json!({"table_type": ty, "must_accept": must_accept, "must_reject": must_reject}), &{ let mut a = v.clone(); a["source"] = json!(src); a },
+                "static type of a nested expression follows the table bottom-up")
+    }
+
     /// `x <op>= v` is checked as `x = x <op> v`: accepted iff the table's kind for (target, value) is the target's kind
     pub fn compound_assign(v: &Value) -> Value {
         let ops = ["+=", "-=", "*=", "/=", "//=", "%="];
@@ -586,8 +637,13 @@ mod c07 {
         let tf = v["target_float"].as_bool().unwrap();
         let vf = v["value_float"].as_bool().unwrap();
         let float = if op == "/=" { true } else { tf || vf };
-        let src = format!("def f(v: {}) -> None:\n    mut x: {} = {}\n    x {} v\n\ndef main() -> None:\n    pass\n",
-            if vf { "float" } else { "int" }, if tf { "float" } else { "int" }, if tf { "1.5" } else { "10" }, op);
+        let tform = v["target"].as_str().unwrap_or("local");
+        let (vk, tk) = (if vf { "float" } else { "int" }, if tf { "float" } else { "int" });
+        let src = match tform {
+            "field" => format!("model Acc:\n    slot: {}\n\ndef f(v: {}, a0: Acc) -> None:\n    mut acc: Acc = a0\n    acc.slot {} v\n\ndef main() -> None:\n    pass\n", tk, vk, op),
+            "index" => format!("def f(v: {}, xs0: List[{}]) -> None:\n    mut xs: List[{}] = xs0\n    xs[0] {} v\n\ndef main() -> None:\n    pass\n", vk, tk, tk, op),
+            _ => format!("def f(v: {}) -> None:\n    mut x: {} = {}\n    x {} v\n\ndef main() -> None:\n    pass\n", vk, tk, if tf { "1.5" } else { "10" }, op),
+        };
         let got = guarded(|| {
             let tokens = incan::frontend::lexer::lex(&src).map_err(|e| format!("lex: {:?}", e.first().map(|x| x.message.clone())))?;
             let prog = incan::frontend::parser::parse(&tokens).map_err(|e| format!("parse: {:?}", e.first().map(|x| x.message.clone())))?;
@@ -672,17 +728,32 @@ fn search(oracle: &str, seed: u64, budget: u64, skip: &[String]) -> Value {
                 json!({"s": d, "start": st, "end": st})
             }
             "lsp::span_to_range" | "syntax::get_line_info" => { let a = roff(&mut r, &s); let b = roff(&mut r, &s); json!({"s": s, "start": a, "end": b}) }
+            "incan::static_type_nested" => {
+                // pseudo-random trees of depth <= 3 (seeded): bounded sample, not exhaustive
+                fn tree(r: &mut Rng, depth: u32) -> Value {
+                    let leaves = ["a", "x", "2", "-2", "b", "it.qty", "it.price", "0"];
+                    if depth == 0 || r.below(3) == 0 { return json!({"leaf": leaves[r.below(8) as usize]}); }
+                    let ops = ["+", "-", "*", "/", "//", "%", "**"];
+                    json!({"op": ops[r.below(7) as usize], "l": tree(r, depth - 1), "r": tree(r, depth - 1), "paren": true})
+                }
+                let mut t = tree(&mut r, 3);
+                if t.get("leaf").is_some() { t = json!({"op": "+", "l": t, "r": {"leaf": "a"}, "paren": r.below(2) == 0}); }
+                let anns = ["int", "float", "bool"];
+                let cmps = ["<", "==", ">="];
+                if r.below(5) == 0 { json!({"tree": t, "ann": anns[r.below(3) as usize], "cmp": cmps[r.below(3) as usize], "cmp_float": r.below(2) == 0}) }
+                else { json!({"tree": t, "ann": anns[r.below(2) as usize]}) }
+            }
             "incan::static_type" => {
-                // exhaustive: 7 operators x 2 x 2 operand kinds x 2 annotations x 7 right-operand forms x 3 binding positions = 1176 programs
+                // exhaustive: 7 operators x 2 x 2 operand kinds x 2 annotations x 7 right-operand forms x 3 binding positions x bare/parenthesised = 2352 programs
                 let forms = ["var", "const", "lit", "zero", "neg", "paren", "negneg"];
                 let pos = ["let", "return", "arg"];
-                let k = n % 1176;
-                json!({"op": k % 7, "lfloat": (k / 7) % 2 == 0, "rfloat": (k / 14) % 2 == 0, "ann_float": (k / 28) % 2 == 0, "form": forms[((k / 56) % 7) as usize], "position": pos[((k / 392) % 3) as usize]})
+                let k = n % 2352;
+                json!({"op": k % 7, "lfloat": (k / 7) % 2 == 0, "rfloat": (k / 14) % 2 == 0, "ann_float": (k / 28) % 2 == 0, "form": forms[((k / 56) % 7) as usize], "position": pos[((k / 392) % 3) as usize], "wrap": (k / 1176) % 2 == 1})
             }
             "incan::emit_promotion" => {
-                // exhaustive: 4 operators x 4 left forms x 9 right forms x plain/compound x flat/shadowing block = 576 programs (inapplicable combinations are skipped)
-                let k = n % 576;
-                json!({"op": k % 4, "l": (k / 4) % 4, "r": (k / 16) % 9, "compound": (k / 144) % 2 == 1, "shadow": (k / 288) % 2 == 1})
+                // exhaustive: 4 operators x 4 left forms x 11 right forms x plain/compound x flat/shadowing block = 704 programs (inapplicable combinations are skipped)
+                let k = n % 704;
+                json!({"op": k % 4, "l": (k / 4) % 4, "r": (k / 16) % 11, "compound": (k / 176) % 2 == 1, "shadow": (k / 352) % 2 == 1})
             }
             "lsp::server_ranges" => {
                 // exhaustive: 6 fixed documents x every character boundary as the cursor
@@ -725,9 +796,10 @@ fn search(oracle: &str, seed: u64, budget: u64, skip: &[String]) -> Value {
                 else { let f = ["var", "zero", "neg", "two"][((k - 128) % 4) as usize]; json!({"target": t, "index": true, "start": f}) }
             }
             "incan::compound_assign" => {
-                // exhaustive: 6 compound operators x 2 target kinds x 2 value kinds = 24 programs
-                let k = n % 24;
-                json!({"op": k % 6, "target_float": (k / 6) % 2 == 0, "value_float": (k / 12) % 2 == 0})
+                // exhaustive: 6 compound operators x 2 target kinds x 2 value kinds x 3 target forms (local, field, list element) = 72 programs
+                let k = n % 72;
+                let tf = ["local", "field", "index"][((k / 24) % 3) as usize];
+                json!({"op": k % 6, "target_float": (k / 6) % 2 == 0, "value_float": (k / 12) % 2 == 0, "target": tf})
             }
             "incan::exponent_kind" | "incan::binop_plan" => {
                 let lits = [0i64, 1, 2, 3, 4294967295, 4294967296, i64::MAX];
